@@ -206,8 +206,11 @@ CHECKS['C01'] = dict(
          "implementation and the model must print the same program), grounding over the universe of domain values, and the reading written "
          "without reference to the compile model. Oracle: all answer sets clingo computes for the IMPLEMENTATION's program are evaluated in "
          "Coq against the reading and against the ground semantics; when the candidate space is small the comparison is exhaustive over ALL "
-         "interpretations (reading = ground semantics = clingo). The theorem 'stable (ground (compile s)) I <-> reading s I' for all F0 "
-         "specifications is in progress (see DESIGN): partial.",
+         "interpretations (reading = ground semantics = clingo). Proved end to end (ground constraints of the compiled rule hold in I iff the "
+         "reading of the sentence holds, any specification, universe and interpretation): constraints over one quantified clause in both "
+         "polarities (C01_single_clause_constraint_partial) and named-instance constraints 'there is [not] a <relation> with ...' "
+         "(C01_named_instance_constraint_partial); C01_one_of_multiplies: a 'where L is one of' clause multiplies the rules. The theorem "
+         "'stable (ground (compile s)) I <-> reading s I' for ALL F0 specifications is not proved (see DESIGN 11.1): partial.",
     note="Trusted: Coq kernel; clingo as external semantics (it also validates Asp/Ground.v); Lark's parse of rendered sentences; the reading "
          "(Cnl/Core.v: r_sentence) is the specification.",
     technique="Coq proof of the stable-model characterisation + byte-exact compile model + exhaustive reading/ground/clingo comparison",
